@@ -81,31 +81,32 @@ mod mac_basic__src0;
 mod mac_basic__exp;
 mod mac_nested__par;
 mod mac_gensym_disj__exppar;
-mod rnd_core_01__pari;
-mod rnd_core_04__par;
-mod rnd_core_07__ser;
-mod rnd_core_09__pari;
-mod rnd_core_12__par;
-mod rnd_core_15__ser;
-mod rnd_core_17__pari;
-mod rnd_core_20__par;
-mod rnd_core_23__ser;
-mod rnd_core_25__pari;
-mod rnd_core_28__par;
-mod rnd_agg_01__ser;
-mod rnd_agg_03__pari;
-mod rnd_agg_06__par;
-mod rnd_agg_09__ser;
-mod rnd_agg_11__pari;
-mod rnd_agg_14__par;
-mod rnd_prec_01__to;
-mod rnd_prec_03__par;
-mod rnd_prec_04__topar;
-mod rnd_prec_06__pari;
-mod rnd_prec_08__ser;
-mod rnd_prea_02__ser;
-mod rnd_prea_04__pari;
-mod rnd_prea_07__par;
+mod stress_lat__pari;
+mod rnd_core_02__par;
+mod rnd_core_05__ser;
+mod rnd_core_07__pari;
+mod rnd_core_10__par;
+mod rnd_core_13__ser;
+mod rnd_core_15__pari;
+mod rnd_core_18__par;
+mod rnd_core_21__ser;
+mod rnd_core_23__pari;
+mod rnd_core_26__par;
+mod rnd_core_29__ser;
+mod rnd_agg_01__pari;
+mod rnd_agg_04__par;
+mod rnd_agg_07__ser;
+mod rnd_agg_09__pari;
+mod rnd_agg_12__par;
+mod rnd_agg_15__ser;
+mod rnd_prec_02__ser;
+mod rnd_prec_03__to;
+mod rnd_prec_05__par;
+mod rnd_prec_06__topar;
+mod rnd_prec_08__pari;
+mod rnd_prea_02__pari;
+mod rnd_prea_05__par;
+mod rnd_prea_08__ser;
 
 fn lookup(name: &str) -> fn() -> Box<dyn Driven> {
    match name {
@@ -182,31 +183,32 @@ fn lookup(name: &str) -> fn() -> Box<dyn Driven> {
       "mac_basic__exp" => mac_basic__exp::make,
       "mac_nested__par" => mac_nested__par::make,
       "mac_gensym_disj__exppar" => mac_gensym_disj__exppar::make,
-      "rnd_core_01__pari" => rnd_core_01__pari::make,
-      "rnd_core_04__par" => rnd_core_04__par::make,
-      "rnd_core_07__ser" => rnd_core_07__ser::make,
-      "rnd_core_09__pari" => rnd_core_09__pari::make,
-      "rnd_core_12__par" => rnd_core_12__par::make,
-      "rnd_core_15__ser" => rnd_core_15__ser::make,
-      "rnd_core_17__pari" => rnd_core_17__pari::make,
-      "rnd_core_20__par" => rnd_core_20__par::make,
-      "rnd_core_23__ser" => rnd_core_23__ser::make,
-      "rnd_core_25__pari" => rnd_core_25__pari::make,
-      "rnd_core_28__par" => rnd_core_28__par::make,
-      "rnd_agg_01__ser" => rnd_agg_01__ser::make,
-      "rnd_agg_03__pari" => rnd_agg_03__pari::make,
-      "rnd_agg_06__par" => rnd_agg_06__par::make,
-      "rnd_agg_09__ser" => rnd_agg_09__ser::make,
-      "rnd_agg_11__pari" => rnd_agg_11__pari::make,
-      "rnd_agg_14__par" => rnd_agg_14__par::make,
-      "rnd_prec_01__to" => rnd_prec_01__to::make,
-      "rnd_prec_03__par" => rnd_prec_03__par::make,
-      "rnd_prec_04__topar" => rnd_prec_04__topar::make,
-      "rnd_prec_06__pari" => rnd_prec_06__pari::make,
-      "rnd_prec_08__ser" => rnd_prec_08__ser::make,
-      "rnd_prea_02__ser" => rnd_prea_02__ser::make,
-      "rnd_prea_04__pari" => rnd_prea_04__pari::make,
-      "rnd_prea_07__par" => rnd_prea_07__par::make,
+      "stress_lat__pari" => stress_lat__pari::make,
+      "rnd_core_02__par" => rnd_core_02__par::make,
+      "rnd_core_05__ser" => rnd_core_05__ser::make,
+      "rnd_core_07__pari" => rnd_core_07__pari::make,
+      "rnd_core_10__par" => rnd_core_10__par::make,
+      "rnd_core_13__ser" => rnd_core_13__ser::make,
+      "rnd_core_15__pari" => rnd_core_15__pari::make,
+      "rnd_core_18__par" => rnd_core_18__par::make,
+      "rnd_core_21__ser" => rnd_core_21__ser::make,
+      "rnd_core_23__pari" => rnd_core_23__pari::make,
+      "rnd_core_26__par" => rnd_core_26__par::make,
+      "rnd_core_29__ser" => rnd_core_29__ser::make,
+      "rnd_agg_01__pari" => rnd_agg_01__pari::make,
+      "rnd_agg_04__par" => rnd_agg_04__par::make,
+      "rnd_agg_07__ser" => rnd_agg_07__ser::make,
+      "rnd_agg_09__pari" => rnd_agg_09__pari::make,
+      "rnd_agg_12__par" => rnd_agg_12__par::make,
+      "rnd_agg_15__ser" => rnd_agg_15__ser::make,
+      "rnd_prec_02__ser" => rnd_prec_02__ser::make,
+      "rnd_prec_03__to" => rnd_prec_03__to::make,
+      "rnd_prec_05__par" => rnd_prec_05__par::make,
+      "rnd_prec_06__topar" => rnd_prec_06__topar::make,
+      "rnd_prec_08__pari" => rnd_prec_08__pari::make,
+      "rnd_prea_02__pari" => rnd_prea_02__pari::make,
+      "rnd_prea_05__par" => rnd_prea_05__par::make,
+      "rnd_prea_08__ser" => rnd_prea_08__ser::make,
       _ => panic!("no such program variant in this shard: {}", name),
    }
 }
